@@ -32,7 +32,7 @@ pub type Id = String;
 pub struct Statement {
     pub sid: Option<Sid>,
 
-    #[serde(flatten)]
+    #[serde(flatten, deserialize_with = "deserialize_principal_rule")]
     pub principal: Option<PrincipalRule>,
 
     pub effect: Effect,
@@ -47,6 +47,29 @@ pub struct Statement {
 }
 
 pub type Sid = String;
+
+/// A flattened `Option<PrincipalRule>` turns every error into `None`,
+/// so a `Principal` of the wrong type would be dropped silently.
+/// The two members are read by name instead: an absent member is `None`, a malformed one is an error.
+fn deserialize_principal_rule<'de, D>(deserializer: D) -> Result<Option<PrincipalRule>, D::Error>
+where
+    D: serde::Deserializer<'de>,
+{
+    #[derive(Deserialize)]
+    #[serde(rename_all = "PascalCase")]
+    struct Members {
+        principal: Option<Principal>,
+        not_principal: Option<Principal>,
+    }
+
+    let members = Members::deserialize(deserializer)?;
+    match (members.principal, members.not_principal) {
+        (None, None) => Ok(None),
+        (Some(p), None) => Ok(Some(PrincipalRule::Principal(p))),
+        (None, Some(p)) => Ok(Some(PrincipalRule::NotPrincipal(p))),
+        (Some(_), Some(_)) => Err(<D::Error as serde::de::Error>::custom("Principal and NotPrincipal are mutually exclusive")),
+    }
+}
 
 #[derive(Debug, Clone, PartialEq, Eq, Serialize, Deserialize)]
 pub enum PrincipalRule {
